@@ -76,9 +76,20 @@ Theorem C13_decoded_content_is_supplied : forall e ev title cs chunk,
     /\ view_of_file fv = Ok (expected_view ev title cs).
 Proof. exact tie_decoded_content_is_supplied. Qed.
 
-(* the package's reader attaches to every field a unit of the dimension the writer converted it to *)
-Theorem C13_reader_unit_dimension : reader_units_ok = true /\ multi_units_ok = true.
-Proof. exact (conj reader_unit_dimension multi_unit_dimension). Qed.
+(* the package's reader attaches to every field a unit of the dimension the writer converted it to — proved for
+   every labelled field EXCEPT the two lattice-parameter fields recorded as known findings
+   (reader-unit-dimension:samp.N.alatt, reader-unit-dimension:dnd.pr.alatt) *)
+Theorem C13_reader_unit_dimension_except_known_alatt : reader_units_ok_excl = true /\ multi_units_ok = true.
+Proof. exact (conj reader_unit_dimension_excl multi_unit_dimension). Qed.
+
+(* the known finding itself: alatt is written in angstrom and labelled 1/angstrom (sample and projection),
+   so the unrestricted statement is false of the current source *)
+Theorem C13_alatt_unit_refuted :
+  map (fun k => (writer_unit (fst k) (snd k), reader_unit (fst k) (snd k))) known_alatt
+  = [(Some "angstrom", Some "1/angstrom"); (Some "angstrom", Some "1/angstrom")]%string
+  /\ length (filter (fun t => is_known (fst (fst t)) (snd (fst t))) reader_units) = 2%nat
+  /\ reader_units_ok = false.
+Proof. exact alatt_unit_refuted. Qed.
 
 Print Assumptions C13_decode_encode_object.
 Print Assumptions C13_integers_as_binary64.
@@ -89,4 +100,5 @@ Print Assumptions C13_shared_instrument.
 Print Assumptions C13_dnd_metadata.
 Print Assumptions C13_zero_histogram.
 Print Assumptions C13_decoded_content_is_supplied.
-Print Assumptions C13_reader_unit_dimension.
+Print Assumptions C13_reader_unit_dimension_except_known_alatt.
+Print Assumptions C13_alatt_unit_refuted.
